@@ -29,6 +29,15 @@ THEMES = {
     "D": ("build the defect as a behaviour-preserving-LOOKING refactoring that silently relies on something that does not hold in general: iteration or insertion "
           "order of a dict / set / list, tie-breaking of `sorted` / `min` / `max`, truthiness of 0 / empty containers, `==` versus `is`, integer versus float division or "
           "rounding, mutable default arguments, shallow versus deep copies, a loop bound computed once before the loop body changes it."),
+    "E": ("build the defect into the INTERACTION OF TWO OBJECTS: receiver versus argument of a set operation / merge / join, a result object and the operands it "
+          "came from, a reloaded copy and its original, two instances of the same class alive at once. Think of state shared by accident, or of the two roles "
+          "being handled asymmetrically. Each object used alone must stay correct."),
+    "F": ("build the defect into STATE THAT OUTLIVES ONE INSTANCE OR ONE CALL: class attributes used as instance state, module-level tables or caches, default "
+          "arguments evaluated once, attributes that are set lazily on first use and not reset by clear() / reload / resize, values remembered from the previous call."),
+    "G": ("build the defect so that it needs a LONG or LARGE history to manifest: a counter crossing 255 / 65 535 / 2^31, the 3rd or 4th expansion / rotation / resize "
+          "rather than the first, hundreds of keys, a table that has been filled and emptied again, many close/reopen or export/load cycles. Short ordinary use must stay correct."),
+    "H": ("build the defect into the handling of KEY TYPES AND ENCODINGS or ARGUMENT TYPES that the API accepts besides the usual ones: bytes versus str keys, non-ASCII "
+          "text, empty keys, very long keys, `pathlib.Path` versus str paths, bytearray / memoryview buffers, numpy-like integers or bools, floats that are whole numbers."),
 }
 
 
@@ -98,7 +107,7 @@ def main():
         wt = os.path.join(base, pid)
         if not os.path.exists(wt):
             subprocess.run(["git", "-C", "/repo", "worktree", "add", "--detach", wt, "HEAD"], check=True, capture_output=True)
-        theme = "ABCD"[(i + rnd) % 4]
+        theme = "ABCDEFGH"[(i * 3 + rnd) % 8]
         with open(os.path.join(base, f"prompt_{pid}.txt"), "w") as f:
             f.write(prompt(p, wt, theme))
         print(pid, theme, wt)
